@@ -21,7 +21,8 @@ Record settings := mkSet { s_en : bool; s_mode : Z; s_pwd : bool; s_wl : bool; s
 Record kp := mkKp { k_old : string; k_new : string; k_next : Z; k_tgt : Z }.
 (* a pooled transfer: MsgSend fields + Votes + Confirmed *)
 Definition coins := list (Z * Z).
-Record txr := mkTx { t_to : Z; t_amt : coins; t_pw : string; t_rew : coins; t_votes : Z; t_conf : bool }.
+(* a pooled transfer: MsgSend fields (FromAddress, ToAddress, Amount, Password, Reward) + Votes + Confirmed *)
+Record txr := mkTx { t_from : Z; t_to : Z; t_amt : coins; t_pw : string; t_rew : coins; t_votes : Z; t_conf : bool }.
 Definition amap := list (Z * bool).            (* map[string]bool keyed by address *)
 Definition lmap := list (Z * (Z * string)).    (* map[denom]*CustodyLimit{Amount, Limit} *)
 Definition pmap := list (string * txr).        (* map[hash]*TransactionRecord *)
@@ -35,10 +36,11 @@ Record variant := mkV {
   v_lower : bool;       (* the vote mark is keyed by the lower-cased hash, as the pool is (C17-vote-key-lowercase) *)
   v_pwd : bool;         (* PasswordConfirm compares the password with the one of the request (C17-password-compared) *)
   v_nilmap : bool;      (* adding to a stored empty map no longer panics (C17-empty-map-assignment) *)
-  v_limits : bool       (* the limit path of the decorator: no nil dereference, window enforced per coin (C17-limits-window) *)
+  v_limits : bool;      (* the limit path of the decorator: no nil dereference, window enforced per coin (C17-limits-window) *)
+  v_rot : bool          (* address rotation also moves the vote marks and the FromAddress of pooled transfers (C17-rotation-moves-votes) *)
 }.
-Definition v_tree0 : variant := mkV false false false false false.   (* the tree as first modelled *)
-Definition v_fixed : variant := mkV true true true true true.
+Definition v_tree0 : variant := mkV false false false false false false.   (* the tree as first modelled *)
+Definition v_fixed : variant := mkV true true true true true true.
 (* [marks]: the vote store, key (from, target, hash exactly as given in the message), value 1 / -1 *)
 Record state := mkSt { accts : list (Z * acct); marks : list (Z * Z * string * Z) }.
 
@@ -58,13 +60,18 @@ Inductive op :=
 | ODecline (f : Z) (t : Z) (h : string)
 | OConfirm (f : Z) (t : Z) (h : string) (p : string) (ph : string)               (* p: password given, ph: its digest *)
 | OBank (sg : Z) (to : Z) (amt : coins) (now : Z)                                 (* now: block time (unix seconds) *)
-| OMulti (sg : Z) (to : Z) (amt : coins).
+| OMulti (sg : Z) (to : Z) (amt : coins)
+(* x/recovery MsgRotateRecoveryAddress: everything of account [a] moves to the fresh address [nw];
+   [ok]: the preconditions outside custody hold (recovery proof, fee paid by an outsider, [a] exists,
+   [nw] has no account and no rotation history) -- computed by the harness from the real state *)
+| ORotate (a : Z) (nw : Z) (ok : bool).
 
 Definition signer (o : op) : Z :=
   match o with
   | OCreate sg _ _ | ODisable sg _ | ODrop sg _ | OAdd _ sg _ _ | ORem _ sg _ _ | ODropL _ sg _
   | OAddLim sg _ _ _ _ | ORemLim sg _ _ | ODropLim sg _ | OSend sg _ _ _ _ _ | OBank sg _ _ _ | OMulti sg _ _ => sg
   | OApprove f _ _ | ODecline f _ _ | OConfirm f _ _ _ _ => f
+  | ORotate _ _ _ => -3          (* signed by the fee payer, an account outside the universe *)
   end.
 
 (* ---------------------------------------------------------------- maps *)
@@ -92,6 +99,9 @@ Definition empty_acct : acct := mkAcct None None None None None [] None.
 Definition getA (s : state) (i : Z) : acct := match alist_get i (accts s) with Some a => a | None => empty_acct end.
 Definition setA (s : state) (i : Z) (a : acct) : state := mkSt ((i, a) :: accts s) (marks s).
 Definition add_mark (s : state) (f t : Z) (h : string) (v : Z) : state := mkSt (accts s) ((f, t, h, v) :: marks s).
+(* vote marks recorded for target [a] are re-keyed to [nw] *)
+Definition ren_marks (a nw : Z) (l : list (Z * Z * string * Z)) : list (Z * Z * string * Z) :=
+  map (fun e => match e with (f, t, h, x) => (f, (if t =? a then nw else t), h, x) end) l.
 
 Definition with_set (a : acct) (v : option settings) := mkAcct v (a_cust a) (a_wl a) (a_lim a) (a_pool a) (a_bal a) (a_stat a).
 Definition with_cust (a : acct) (v : option amap) := mkAcct (a_set a) v (a_wl a) (a_lim a) (a_pool a) (a_bal a) (a_stat a).
@@ -105,14 +115,17 @@ Definition with_lst (w : lst) (a : acct) (v : option amap) : acct := match w wit
 
 Definition set_enabled (st : settings) (b : bool) := mkSet b (s_mode st) (s_pwd st) (s_wl st) (s_lim st) (s_key st) (s_next st).
 Definition set_keys (st : settings) (key : string) (next : Z) := mkSet (s_en st) (s_mode st) (s_pwd st) (s_wl st) (s_lim st) key next.
-Definition tx_votes (t : txr) (v : Z) := mkTx (t_to t) (t_amt t) (t_pw t) (t_rew t) v (t_conf t).
-Definition tx_conf (t : txr) (b : bool) := mkTx (t_to t) (t_amt t) (t_pw t) (t_rew t) (t_votes t) b.
+Definition tx_votes (t : txr) (v : Z) := mkTx (t_from t) (t_to t) (t_amt t) (t_pw t) (t_rew t) v (t_conf t).
+Definition tx_conf (t : txr) (b : bool) := mkTx (t_from t) (t_to t) (t_amt t) (t_pw t) (t_rew t) (t_votes t) b.
 
 (* balances: amount of a denomination (0 when absent) *)
 Definition bal_get (d : Z) (b : coins) : Z := match alist_get d b with Some x => x | None => 0 end.
 Definition can_pay (b cs : coins) : bool := forallb (fun c => snd c <=? bal_get (fst c) b) cs.
 Definition bal_sub (b cs : coins) : coins := fold_left (fun b c => map_set (fst c) (bal_get (fst c) b - snd c) b) cs b.
 Definition bal_add (b cs : coins) : coins := fold_left (fun b c => map_set (fst c) (bal_get (fst c) b + snd c) b) cs b.
+(* the whole balance [cs] of one account is added to the balance [b] of another *)
+Definition bal_merge (b cs : coins) : coins :=
+  fold_left (fun acc c => map_set (fst c) (bal_get (fst c) b + bal_get (fst c) cs) acc) cs b.
 (* sdk.Coins.Validate + IsAllPositive: sorted by denomination without duplicates, amounts positive *)
 Fixpoint coins_sorted (lo : Z) (cs : coins) : bool :=
   match cs with [] => true | (d, a) :: r => (lo <? d) && (0 <? a) && coins_sorted d r end.
@@ -168,7 +181,7 @@ Definition ante_switch (sg : acct) (st : settings) (o : op) : outcome unit :=
                   end
       end
   (* no arm: disable, drop, password confirm, bank messages *)
-  | ODisable _ _ | ODrop _ _ | OConfirm _ _ _ _ _ | OBank _ _ _ _ | OMulti _ _ _ => Ok tt
+  | ODisable _ _ | ODrop _ _ | OConfirm _ _ _ _ _ | OBank _ _ _ _ | OMulti _ _ _ | ORotate _ _ _ => Ok tt
   end.
 
 (* the repaired limit path: per coin of the message, a window of the limit's duration starting at
@@ -330,7 +343,7 @@ Definition handle (s : state) (o : op) : outcome state :=
                                 else Ok (s_pwd st)
                    end;
       (* the pool record is REPLACED by a pool holding only the new transfer *)
-      if pooled then Ok (setA s sg (with_pool a (Some [(h, mkTx to amt pw rew 0 false)])))
+      if pooled then Ok (setA s sg (with_pool a (Some [(h, mkTx sg to amt pw rew 0 false)])))
       else send s sg to amt
   | OApprove f t hraw =>
       let T := getA s t in
@@ -357,7 +370,7 @@ Definition handle (s : state) (o : op) : outcome state :=
           do s1 <- send s t f rw;
           let s2 := add_mark s1 f t (mark_key hraw) 1 in
           if allowC && allowP then
-            do s3 <- send s2 t (t_to tx) (t_amt tx);
+            do s3 <- send s2 (t_from tx) (t_to tx) (t_amt tx);
             Ok (store_pool s3 t (pool_del h p))
           else Ok (store_pool s2 t (pool_set h (tx_votes tx v') p))
           end end end end
@@ -407,14 +420,38 @@ Definition handle (s : state) (o : op) : outcome state :=
       match rec', a_pool T with
       | Some r, Some p =>
           if allowC && allowP then
-            do s1 <- send s t (t_to r) (t_amt r);
+            do s1 <- send s (t_from r) (t_to r) (t_amt r);
             Ok (store_pool s1 t (pool_del h p))
           else Ok (store_pool s t (pool_set h r p))
       | _, _ => rec_missing
       end
   | OBank sg to amt _ => if negb (coins_ok amt) then Err "invalid coins" else send s sg to amt
   | OMulti sg to amt => if negb (coins_ok amt) then Err "invalid coins" else send s sg to amt
+  | ORotate a nw ok =>
+      if negb ok then Err "rotation refused" else
+      let A := getA s a in
+      let B := getA s nw in
+      let mv {X} (x y : option X) : option X := match x with Some _ => x | None => y end in
+      (* the balance is sent as one SendCoins (skipped when empty); a custody record that exists is
+         dropped at [a] and stored at [nw]; vote marks and the FromAddress inside pooled transfers stay *)
+      let A' := mkAcct None None None None None [] None in
+      (* repaired variant: pending transfers requested by [a] are paid from [nw] *)
+      let pl := if v_rot v then option_map (map (fun e => (fst e, if t_from (snd e) =? a
+                                                                    then mkTx nw (t_to (snd e)) (t_amt (snd e)) (t_pw (snd e)) (t_rew (snd e)) (t_votes (snd e)) (t_conf (snd e))
+                                                                    else snd e))) (a_pool A)
+                else a_pool A in
+      let B' := mkAcct (mv (a_set A) (a_set B)) (mv (a_cust A) (a_cust B)) (mv (a_wl A) (a_wl B)) (mv (a_lim A) (a_lim B))
+                       (mv pl (a_pool B)) (bal_merge (a_bal B) (a_bal A)) (mv (a_stat A) (a_stat B)) in
+      Ok (mkSt (accts (setA (setA s a A') nw B')) (if v_rot v then ren_marks a nw (marks s) else marks s))
   end.
+
+(* a transaction of several messages: the decorator looks at every message first (against the state before
+   any of them ran), then the handlers run in order; all or nothing *)
+Definition ante_all (s : state) (ops : list op) : outcome state :=
+  fold_left (fun acc o => do x <- acc; ante x o) ops (Ok s).
+Definition handle_all (s : state) (ops : list op) : outcome state :=
+  fold_left (fun acc o => do x <- acc; handle x o) ops (Ok s).
+Definition step_tx (s : state) (ops : list op) : outcome state := do s1 <- ante_all s ops; handle_all s1 ops.
 
 (* one transaction: the decorator, then the handler; atomically *)
 Definition step (s : state) (o : op) : outcome state := do s1 <- ante s o; handle s1 o.
